@@ -15,13 +15,14 @@
    k and every k x k matrix over GF(2^8) resp. GF(2^4), when it returns a matrix that matrix is the
    two-sided inverse, and it reports failure exactly when the matrix is singular.  The three C copies are
    compared with the extracted model on generated matrices (invertible, singular, permutation, decode-
-   matrix shaped, zero diagonal) on every run.  RSCore.v (when present) composes selection, decode matrix,
-   inversion and product into the decoding core and discharges `core_ok`; until then every decoded byte is
-   also compared with the encoded source on the compiled C (every received subset of small codes,
-   sampled subsets up to n = 255). *)
+   matrix shaped, zero diagonal) on every run.  RSCore.v composes the selection of k symbols, the decode
+   matrix, the inversion and the product into the decoding core: from ANY k or more codeword elements it
+   returns the original sources (the inverse is exhibited explicitly by Lagrange interpolation on the k
+   selected points), and it discharges `core_ok`.  Every decoded byte is also compared with the encoded
+   source on the compiled C (every received subset of small codes, sampled subsets up to n = 255). *)
 From Coq Require Import Arith List Bool.
 From Coq Require Import NArith.
-From OFV Require Import ListAux RSApi RSApiProofs GF2Poly RSCanon GaussJordan.
+From OFV Require Import ListAux RSApi RSApiProofs GF2Poly RSCanon GaussJordan RSCore.
 Import ListNotations.
 
 Theorem rs_complete_iff_k_distinct :
@@ -84,7 +85,32 @@ Theorem gf16_matrix_inversion_fails_iff_singular :
   (invert_mat16 k A = None <-> ~ exists B, wfN k B /\ belowN 16 B /\ mmul16 A B = mIN k).
 Proof. exact invert_mat16_none_iff_singular. Qed.
 
+(* the decoding core (RSCore.v: selection of k symbols as of_rs_finish_decoding does, decode matrix, the
+   Gauss-Jordan model, product) returns the original sources from ANY k or more codeword elements, and the
+   hypothesis `core_ok` of the API theorems above holds for it *)
+Theorem rs256_core_returns_the_sources :
+  forall k n (src : list N) (t : list (option N)),
+  1 <= k <= n -> n <= 256 -> length src = k -> Forall (fun a => (a < 256)%N) src -> length t = n ->
+  (forall e, e < n -> nth e t None = None \/ nth e t None = Some (elem256 k src e)) ->
+  k <= count_some t -> rs_core256 k n t = Some src.
+Proof. exact rs_core256_correct. Qed.
+
+Theorem rs16_core_returns_the_sources :
+  forall k n (src : list N) (t : list (option N)),
+  1 <= k <= n -> n <= 16 -> length src = k -> Forall (fun a => (a < 16)%N) src -> length t = n ->
+  (forall e, e < n -> nth e t None = None \/ nth e t None = Some (elem16 k src e)) ->
+  k <= count_some t -> rs_core16 k n t = Some src.
+Proof. exact rs_core16_correct. Qed.
+
+Theorem rs256_sessions_complete_iff_k_distinct :
+  forall (cb : bool) (mk : nat -> N -> N) (k n : nat), 1 <= k <= n -> n <= 256 ->
+  forall h : list (nat * N), (forall ev, In ev h -> fst ev < n) ->
+  (rs_is_complete (run N (fun k' t => rs_core256 k' n t) cb mk k n h) = true <-> k <= ndistinct n (map fst h)).
+Proof. exact rs256_api_complete_iff_k_distinct. Qed.
+
 Print Assumptions rs_complete_iff_k_distinct.
+Print Assumptions rs256_core_returns_the_sources.
+Print Assumptions rs256_sessions_complete_iff_k_distinct.
 Print Assumptions gf256_matrix_inversion_returns_the_inverse.
 Print Assumptions gf256_matrix_inversion_fails_iff_singular.
 Print Assumptions rs256_any_k_positions_determine_the_sources.
